@@ -1,0 +1,151 @@
+// SPDX-FileCopyrightText: 2014-2024 caixw
+//
+// SPDX-License-Identifier: MIT
+
+//go:build verif
+
+// Contracts for package types, read by the verification tooling under /verif.
+// This file contains comments only and is excluded from normal builds.
+
+package types
+
+//@ fn ErrParamNotExists
+//@   nopanic
+//@   ensures [C20] same: result == errParamNotExists
+//
+//@ fn Context.Get
+//@   requires ctx != nil
+//@   nopanic
+//@   ensures [C20] found: result1 == in(key, ctx.params)
+//@   ensures [C20] value: result0 == ctx.params[key]
+//@   ensures [C20] absent: !result1 ==> result0 == ""
+//
+//@ fn Context.Count
+//@   requires ctx != nil
+//@   nopanic
+//@   ensures [C20] card: result == len(ctx.params)
+//
+//@ fn Context.Exists
+//@   requires ctx != nil
+//@   nopanic
+//@   ensures [C20] agree: result == in(key, ctx.params)
+//
+//@ fn Context.String
+//@   requires ctx != nil
+//@   nopanic
+//@   ensures [C20] present: in(key, ctx.params) ==> result0 == ctx.params[key] && result1 == nil
+//@   ensures [C20] absent: !in(key, ctx.params) ==> result0 == "" && result1 == errParamNotExists
+//
+//@ fn Context.MustString
+//@   requires ctx != nil
+//@   nopanic
+//@   ensures [C20] agree: result == (in(key, ctx.params) ? ctx.params[key] : def)
+//
+//@ fn Context.Int
+//@   requires ctx != nil
+//@   nopanic
+//@   ensures [C20] present: in(key, ctx.params) ==> result0 == pure0("strconv.ParseInt", ctx.params[key], 10, 64) && result1 == pure1("strconv.ParseInt", ctx.params[key], 10, 64)
+//@   ensures [C20] absent: !in(key, ctx.params) ==> result0 == 0 && result1 == errParamNotExists
+//
+//@ fn Context.MustInt
+//@   requires ctx != nil
+//@   nopanic
+//@   ensures [C20] agree: result == ((in(key, ctx.params) && pure1("strconv.ParseInt", ctx.params[key], 10, 64) == nil) ? pure0("strconv.ParseInt", ctx.params[key], 10, 64) : def)
+//
+//@ fn Context.Uint
+//@   requires ctx != nil
+//@   nopanic
+//@   ensures [C20] present: in(key, ctx.params) ==> result0 == pure0("strconv.ParseUint", ctx.params[key], 10, 64) && result1 == pure1("strconv.ParseUint", ctx.params[key], 10, 64)
+//@   ensures [C20] absent: !in(key, ctx.params) ==> result0 == 0 && result1 == errParamNotExists
+//
+//@ fn Context.MustUint
+//@   requires ctx != nil
+//@   nopanic
+//@   ensures [C20] agree: result == ((in(key, ctx.params) && pure1("strconv.ParseUint", ctx.params[key], 10, 64) == nil) ? pure0("strconv.ParseUint", ctx.params[key], 10, 64) : def)
+//
+//@ fn Context.Bool
+//@   requires ctx != nil
+//@   nopanic
+//@   ensures [C20] present: in(key, ctx.params) ==> result0 == pure0("strconv.ParseBool", ctx.params[key]) && result1 == pure1("strconv.ParseBool", ctx.params[key])
+//@   ensures [C20] absent: !in(key, ctx.params) ==> result0 == false && result1 == errParamNotExists
+//
+//@ fn Context.MustBool
+//@   requires ctx != nil
+//@   nopanic
+//@   ensures [C20] agree: result == ((in(key, ctx.params) && pure1("strconv.ParseBool", ctx.params[key]) == nil) ? pure0("strconv.ParseBool", ctx.params[key]) : def)
+//
+//@ fn Context.Float
+//@   requires ctx != nil
+//@   nopanic
+//@   ensures [C20] present: in(key, ctx.params) ==> result0 == pure0("strconv.ParseFloat", ctx.params[key], 64) && result1 == pure1("strconv.ParseFloat", ctx.params[key], 64)
+//@   ensures [C20] absent: !in(key, ctx.params) ==> result0 == 0 && result1 == errParamNotExists
+//
+//@ fn Context.MustFloat
+//@   requires ctx != nil
+//@   nopanic
+//@   ensures [C20] agree: result == ((in(key, ctx.params) && pure1("strconv.ParseFloat", ctx.params[key], 64) == nil) ? pure0("strconv.ParseFloat", ctx.params[key], 64) : def)
+//
+//@ fn Context.Set
+//@   requires ctx != nil
+//@   nopanic
+//@   modifies types.Context.params: ctx
+//@   modifies map[string]string: ctx.params
+//@   ensures [C20,C01] nonnil: ctx.params != nil
+//@   ensures [C20,C01] dom: dom(ctx.params) == store(old(dom(ctx.params)), k, true)
+//@   ensures [C20,C01] val: ctx.params[k] == v
+//@   ensures [C20,C01] others: forall x string :: x != k ==> ctx.params[x] == old(ctx.params[x])
+//@   ensures [C20] card: len(ctx.params) == old(len(ctx.params)) + (old(in(k, ctx.params)) ? 0 : 1)
+//@   ensures [C20,C01] keepmap: old(ctx.params) != nil ==> ctx.params == old(ctx.params)
+//
+//@ fn Context.Delete
+//@   requires ctx != nil
+//@   nopanic
+//@   modifies map[string]string: ctx.params
+//@   ensures [C20,C01] dom: dom(ctx.params) == store(old(dom(ctx.params)), k, false)
+//@   ensures [C20,C01] others: forall x string :: x != k ==> ctx.params[x] == old(ctx.params[x])
+//@   ensures [C20] card: len(ctx.params) == old(len(ctx.params)) - (old(in(k, ctx.params)) ? 1 : 0)
+//
+//@ fn Context.Reset
+//@   requires ctx != nil
+//@   nopanic
+//@   modifies types.Context.Path: ctx
+//@   modifies types.Context.routerName: ctx
+//@   modifies types.Context.node: ctx
+//@   modifies map[string]string: ctx.params
+//@   ensures [C20,C13] empty: len(ctx.params) == 0 && (forall x string :: !in(x, ctx.params))
+//@   ensures [C20,C13] fields: ctx.Path == "" && ctx.routerName == "" && ctx.node == nil
+//
+//@ fn NewContext
+//@   nopanic
+//@   ensures [C20,C07] nonnil: result != nil
+//@   ensures [C20,C07] empty: len(result.params) == 0 && (forall x string :: !in(x, result.params))
+//@   ensures [C20,C07] fields: result.Path == "" && result.routerName == "" && result.node == nil
+//
+//@ fn Context.Destroy
+//@   nopanic
+//
+//@ fn Context.SetNode
+//@   requires ctx != nil
+//@   nopanic
+//@   modifies types.Context.node: ctx
+//@   ensures ctx.node == n
+//
+//@ fn Context.SetRouterName
+//@   requires ctx != nil
+//@   nopanic
+//@   modifies types.Context.routerName: ctx
+//@   ensures ctx.routerName == n
+//
+//@ fn Context.Node
+//@   requires ctx != nil
+//@   nopanic
+//@   ensures result == ctx.node
+//
+//@ fn Context.RouterName
+//@   requires ctx != nil
+//@   nopanic
+//@   ensures result == ctx.routerName
+//
+//@ fn Context.Params
+//@   nopanic
+//@   ensures [C20] self: result == box(ctx)
